@@ -47,15 +47,24 @@ def l0_one(chk, rng):
         rr.destroy()
 
 
-def l1_layout_one(chk, sseed):
+def l1_layout_one(chk, sseed, stale_alias=False):
     """transfer level: pre-existing partial alias sets (a by-hash object on disk without its canonical name, as after a
-    crash or when a byte-identical sibling was mirrored earlier) -> every reported by-hash variant ends with all aliases"""
+    crash or when a byte-identical sibling was mirrored earlier; stale_alias: with its other names still on older content)
+    -> every by-hash variant reported obtained - transferred or found unmodified - ends with all aliases on one content"""
     from . import l1
     rng = random.Random(sseed)
-    sc = l1.gen_scenario(rng)
+    sc = l1.gen_stale_alias_scenario(rng) if stale_alias else l1.gen_scenario(rng)
     real, files = l1.run_real(sc)
     rfs = {e["path"]: e for e in real["fs"]}
-    for vj in real["downloaded"]:
+    if stale_alias:
+        chk.count("stale_alias_scenarios")
+        chk.count("stale_alias_variants_reported_unmodified", len(real["unmodified"]))
+        model = l1.run_model(sc, files)
+        diffs = l1.compare(real, model)
+        if diffs:
+            chk.violation("correspondence-download", {"scenario": l1.scenario_to_json(sc), "disagreement": diffs,
+                                                      "correspondence": "Model/Download.lean `download` vs Downloader.download()"}, diffs[0], no_input=True)
+    for vj in list(real["downloaded"]) + list(real["unmodified"]):
         aliases = l1.all_paths_of(vj)
         inos = set()
         for p in aliases:
@@ -192,6 +201,8 @@ def run(chk, tier, rng):
         l0_one(chk, random.Random(f"C16-{chk.seed}-{i}"))
     for i in range(250 if tier == "quick" else 5000):
         l1_layout_one(chk, f"C16l-{chk.seed}-{i}")
+        if i % 4 == 0:
+            l1_layout_one(chk, f"C16s-{chk.seed}-{i}", stale_alias=True)
     for i in range(60 if tier == "quick" else 1500):
         e2e_one(chk, f"C16e-{chk.seed}-{i}")
     chk.assumptions += ["two index files with identical content in one directory share their by-hash target (finding F-C05a); the "
